@@ -267,6 +267,8 @@ def size_key(m):
 
 
 def run(ctx):
+    from checks import isolate
+    isolate.enter(ctx)
     bindir = core.cargo_build("h_ctx")
     ok, problems = core.coq_audit(ctx, PROPS, THEOREMS)
     exe = exe_path(bindir)
@@ -320,6 +322,8 @@ def run(ctx):
 
 
 def replay(ctx, path):
+    from checks import isolate
+    isolate.enter(ctx)
     obj = json.load(open(path))
     fi = obj.get("failing_input") or obj.get("first_disagreeing_input")
     if not fi or "scenario" not in fi:
